@@ -65,3 +65,44 @@ def forcedSid (e : Env) (ts : List (Str × Template)) (ty rest : Str) : Sid :=
   | none => Sid.untyped rest
 
 end Spec
+
+namespace Spec
+
+/-- keys of a template as a list -/
+def keysOf (t : Template) : List Str := (phs t).map (·.1)
+
+/-- `sameKeysSameOrder`: two templates with the same key SET list their keys in the same order
+    ("ordered templates per basetype") -/
+def sameKeysSameOrder (ts : List (Str × Template)) : Bool :=
+  ts.all (fun a => ts.all (fun b =>
+    !((keysOf a.2).all (fun k => (keysOf b.2).contains k) && (keysOf b.2).all (fun k => (keysOf a.2).contains k))
+      || keysOf a.2 == keysOf b.2))
+
+/-- `prefixClosed`: every non-empty proper prefix of a template's placeholder list (keys AND
+    expressions) is the placeholder list of some template ("every level has a type") -/
+def prefixClosed (ts : List (Str × Template)) : Bool :=
+  ts.all (fun a => (List.range (phs a.2).length).all (fun n =>
+    n == 0 || ts.any (fun b => phs b.2 == (phs a.2).take n)))
+
+/-- type names contain neither ':' nor '?' (they are spelled in front of ':' in a uri) -/
+def labelsPlain (ts : List (Str × Template)) : Bool :=
+  ts.all (fun a => !Str.hasChar ':' a.1 && !Str.hasChar '?' a.1)
+
+/-- the conventions the hierarchy theorems need, on top of `sidTableOk` -/
+def sidHierOk (e : Env) (ts : List (Str × Template)) : Bool :=
+  sidTableOk e ts && sameKeysSameOrder ts && prefixClosed ts && labelsPlain ts
+
+/-- `x` is the Sid that natural (first-match) typing gives to its own string -/
+def natural (e : Env) (ts : List (Str × Template)) (x : Sid) : Prop :=
+  x.typed = true ∧ x = plainSid e ts x.string
+
+end Spec
+
+namespace Spec
+
+/-- `x` is typed by SOME template of the table that accepts its string (not necessarily the
+    first one: covers Sids whose type was forced by a uri or chosen by a query / a field set) -/
+def wellTyped (e : Env) (ts : List (Str × Template)) (x : Sid) : Prop :=
+  ∃ t, ts.lookup x.type = some t ∧ x.string ≠ [] ∧ accepts e t x.string = true ∧ x.fields = fieldsOf t x.string
+
+end Spec
